@@ -75,7 +75,7 @@ def register(R):
         k, j = bound(StrT, "k_mva"), bound(IntT, "j_mva")
         seen = exists([j], And(j >= 0, j < i, at(xs, j) == k))
         old = a.sim.requests.get(k)
-        return And(same_except(s2, a.sim, ["requests", "r_locations", "r_search"]), wf(s2),
+        return And(same_except(s2, a.sim, ["requests"]), wf(s2),
                    forall([k], s2.requests.has(k) == a.sim.requests.has(k)),
                    forall([k], Implies(old.is_some(), s2.requests.get(k) == Ite(
                        seen, some(new_record(old.val(), a.vehicle_id, a.sim.sim_time, a.unassign)), old))))
